@@ -52,3 +52,6 @@ func verifJoin()
 
 // vhGo starts a goroutine (an engine thread under the symbolic executor).
 func vhGo(f func()) { go f() }
+
+// vhNewRun resets per-run native state (nothing to do under the engine).
+func vhNewRun() {}
